@@ -314,6 +314,7 @@ impl World {
             }
             Fault::WrongAad(b) => aad = b.0.clone(),
             Fault::Garbage(b) => bytes = b.0.clone(),
+            Fault::TagExtend(b) => bytes.extend_from_slice(b),
         }
         let fired = bytes != rec.ct || aad != rec.aad;
         (bytes, aad, fired)
@@ -347,6 +348,7 @@ impl World {
             Fault::SwapCt(_) => "swap_ct",
             Fault::WrongAad(_) => "wrong_aad",
             Fault::Garbage(_) => "garbage",
+            Fault::TagExtend(_) => "tag_extend",
         }
     }
 
@@ -382,6 +384,16 @@ impl World {
             _ => {}
         }
         let label = format!("{}{}{}", kind, if fired { "+" } else { "" }, if fired { Self::fault_name(fault) } else { "" });
+        if let Fault::TagExtend(x) = fault {
+            // the body stays what it was; the *tag* handed to the detached interface is longer
+            let rec_len = self.recs[ridx].ct.len();
+            if rec_len >= nt && matches!(api, OpenApi::InPlace | OpenApi::SingleShotInPlace) {
+                let body = bytes[..rec_len - nt].to_vec();
+                let tag = bytes[rec_len - nt..].to_vec();
+                let _ = x;
+                return self.present(r, &body, &aad, Some(&tag), api, &label, cov);
+            }
+        }
         self.present(r, &bytes, &aad, None, api, &label, cov)
     }
 
@@ -629,6 +641,10 @@ impl World {
         }
         variants.push(Fault::Extend(vec![0xA5u8; 16].into()));
         variants.push(Fault::Extend(ct[body_len..].to_vec().into()));
+        for n in [1usize, 2, 16] {
+            variants.push(Fault::TagExtend(vec![0u8; n].into()));
+        }
+        variants.push(Fault::TagExtend(ct[body_len..].to_vec().into()));
         variants.push(Fault::Insert(vec![0u8; 1].into()));
         variants.push(Fault::Insert(vec![0u8; 16].into()));
         variants.push(Fault::WrongAad(vec![].into()));
@@ -674,7 +690,13 @@ impl World {
             cov.hit(&format!("fault.{}", Self::fault_name(fault)));
             cov.hit("tamper.variants");
             let before = self.ev_idx;
-            let rr = self.present(r, &bytes, &vaad, None, api, Self::fault_name(fault), cov);
+            let rr = if matches!(fault, Fault::TagExtend(_)) && ct.len() >= nt && matches!(api, OpenApi::InPlace | OpenApi::SingleShotInPlace) {
+                let body = bytes[..ct.len() - nt].to_vec();
+                let tag = bytes[ct.len() - nt..].to_vec();
+                self.present(r, &body, &vaad, Some(&tag), api, Self::fault_name(fault), cov)
+            } else {
+                self.present(r, &bytes, &vaad, None, api, Self::fault_name(fault), cov)
+            };
             if let Err(mut v) = rr {
                 v.invariant = format!("tamper[{}:{:?}].{}", vi, fault_brief(fault), v.invariant);
                 v.at_event = before;
@@ -689,6 +711,47 @@ impl World {
             rc.m_seq = seq;
             if let Some(t) = rc.twin.as_mut() {
                 t.set_seq(seq);
+            }
+        }
+        Ok(())
+    }
+
+    /// Content-dependent adversary (sees the ciphertexts): strips trailing zero bytes
+    pub fn ev_strip_zeros(&mut self, r: usize, from: usize, cov: &mut Cov) -> V {
+        let cands: Vec<(u64, Vec<u8>, Vec<u8>)> = {
+            let rc = match self.rcs.get(r).and_then(|x| x.as_ref()) {
+                Some(x) => x,
+                None => return Ok(()),
+            };
+            let sc = match self.scs.get(from).and_then(|x| x.as_ref()) {
+                Some(x) => x,
+                None => return Ok(()),
+            };
+            if rc.real.is_none() || rc.m_over || !rc.cfg.suite.aead.seals() {
+                return Ok(());
+            }
+            sc.recs
+                .iter()
+                .map(|i| &self.recs[*i])
+                .filter(|rec| rec.ident == rc.ident && rec.ct.last() == Some(&0))
+                .map(|rec| {
+                    let keep = rec.ct.iter().rposition(|b| *b != 0).map(|p| p + 1).unwrap_or(0);
+                    (rec.seq, rec.ct[..keep].to_vec(), rec.aad.clone())
+                })
+                .collect()
+        };
+        for (seq, bytes, aad) in cands {
+            for api in [OpenApi::Alloc, OpenApi::InPlace] {
+                {
+                    let rc = self.rcs[r].as_mut().unwrap();
+                    rc.real.as_mut().unwrap().set_seq(seq);
+                    rc.m_seq = seq;
+                    if let Some(t) = rc.twin.as_mut() {
+                        t.set_seq(seq);
+                    }
+                }
+                cov.hit("fault.strip_trailing_zeros");
+                self.present(r, &bytes, &aad, None, api, "strip_zeros", cov)?;
             }
         }
         Ok(())
@@ -953,6 +1016,7 @@ fn fault_brief(f: &Fault) -> String {
         Fault::Insert(b) => format!("Insert({}B)", b.len()),
         Fault::WrongAad(b) => format!("WrongAad({}B)", b.len()),
         Fault::Garbage(b) => format!("Garbage({}B)", b.len()),
+        Fault::TagExtend(b) => format!("TagExtend({}B)", b.len()),
         other => format!("{:?}", other),
     }
 }
